@@ -117,6 +117,8 @@ def ones(shape, dtype=None):
 
 
 def zeros_like(a, dtype=None):
+    if dtype is not None:           # np.zeros_like(a, dtype=float): the given dtype, not a's
+        return zeros(a.shape, dtype)
     return full(a.shape, 0.0 if a.kind == 'real' else 0)
 
 
@@ -244,7 +246,9 @@ def reshape(x, shape):
         if s_ is not None:
             known = known * s_
     vc = cur()
-    if neg:
+    if neg and conc(known) not in (None, 0) and conc(total) is not None and conc(total) % conc(known) == 0:
+        sh[neg[0]] = z3.IntVal(conc(total) // conc(known))      # all sizes concrete: the free dimension is a number, not a fresh symbol
+    elif neg:
         q = vc.fresh_int('dim', size=True)
         vc.oblige('call-pre[reshape: size divisible]', z3.Exists([z3.Int('qq')], z3.And(z3.Int('qq') >= 0, z3.Int('qq') * known == total))
                   if conc(known) is None or conc(total) is None or conc(known) == 0 or conc(total) % conc(known) else z3.BoolVal(True))
